@@ -272,6 +272,7 @@ def scenarios(run: Run, rng):
 
 def describe(trace, reached, info):
     sc = trace[0]["sc"]
+    reached = max(reached, 1)
     ev = trace[reached] if reached < len(trace) else {}
     end = trace[-1]
     key = (f"{info['fmt']}.{sc['op']} sel={sc['sel']} frames={'/'.join(sc['frames']) or '-'} allow={sc['allow']} "
